@@ -310,6 +310,9 @@ var c12Templates = []sim.Template{
 		kv := k + "_validate"
 		first := pickS(s.R, "ok", "ok", "recovery")
 		again := map[string]string{"ok": "ok", "recovery": "recovery_spent"}[first]
+		if k == "totp" && first == "ok" {
+			first, again = "cur", "cur" // exactly the same code both times
+		}
 		return []*sim.Action{act("login", 0, v, "ok"), act("hooknext", 0, -9, "", "mode", pickS(s.R, "handled", "handled", "error")), act(kv, 0, -9, first),
 			act("login", 1, v, "ok"), act(kv, 1, -9, again), act(kv, 1, -9, again), act(kv, 1, -9, "ok")}
 	}},
